@@ -1,1 +1,84 @@
-// kani harnesses for this module (see /verif/DESIGN.md)
+// K02 disambiguate_short, K04 State::construct (src/args.rs) – bounded stand-ins.
+use super::*;
+
+fn letter() -> u8 {
+    let c: u8 = kani::any();
+    kani::assume(c == b'a' || c == b'b' || c == b'c');
+    c
+}
+
+fn set_of(a: bool, b: bool, c: bool) -> Vec<char> {
+    let mut v = Vec::with_capacity(3);
+    if a { v.push('a'); }
+    if b { v.push('b'); }
+    if c { v.push('c'); }
+    v
+}
+
+fn has(v: &[char], c: u8) -> bool {
+    let mut i = 0;
+    let mut r = false;
+    while i < v.len() {
+        if v[i] == c as char { r = true; }
+        i += 1;
+    }
+    r
+}
+
+/// K02: a two letter cluster `-xy`, x, y in {a,b,c}, declared short flags / short arguments any subsets of {a,b,c}
+/// (C02: "`-abc` versus `-a -b -c` for flags (a cluster may end in a short argument with its value attached)")
+#[kani::proof]
+#[kani::unwind(6)]
+fn k02_disambiguate_short_two_letters() {
+    let x = letter();
+    let y = letter();
+    let flags = set_of(kani::any(), kani::any(), kani::any());
+    let args = set_of(kani::any(), kani::any(), kani::any());
+    let mut sv = Vec::with_capacity(2);
+    sv.push(x);
+    sv.push(y);
+    let short = unsafe { String::from_utf8_unchecked(sv) };
+    let mut ov = Vec::with_capacity(3);
+    ov.push(b'-');
+    ov.push(x);
+    ov.push(y);
+    let os = <OsString as std::os::unix::ffi::OsStringExt>::from_vec(ov);
+    let mut items: Vec<Arg> = Vec::with_capacity(4);
+    let (fx, ax, fy, ay) = (has(&flags, x), has(&args, x), has(&flags, y), has(&args, y));
+    let r = disambiguate_short(os, short, &flags, &args, &mut items);
+    if fx && ax {
+        assert!(matches!(r, Some(Message::Ambiguity(0, _))));
+    } else if !fx && ax {
+        // x is an argument: the rest of the item is its attached value
+        assert!(r.is_none() && items.len() == 2);
+        assert!(matches!(&items[0], Arg::Short(c, true, _) if *c == x as char));
+        assert!(matches!(&items[1], Arg::Word(w) if std::os::unix::ffi::OsStrExt::as_bytes(w.as_os_str()).len() == 1
+            && std::os::unix::ffi::OsStrExt::as_bytes(w.as_os_str())[0] == y));
+    } else if !fx && !ax {
+        // undeclared letter: the whole item is a plain word
+        assert!(r.is_none() && items.len() == 1);
+        assert!(matches!(&items[0], Arg::Word(w) if std::os::unix::ffi::OsStrExt::as_bytes(w.as_os_str()).len() == 3));
+    } else {
+        // x is a flag
+        if fy && ay {
+            assert!(matches!(r, Some(Message::Ambiguity(_, _))));
+        } else if fy {
+            assert!(r.is_none() && items.len() == 2);
+            assert!(matches!(&items[0], Arg::Short(c, false, _) if *c == x as char));
+            assert!(matches!(&items[1], Arg::Short(c, false, _) if *c == y as char));
+        } else if ay {
+            // cluster ending in a short argument without attached value
+            assert!(r.is_none() && items.len() == 2);
+            assert!(matches!(&items[0], Arg::Short(c, false, _) if *c == x as char));
+            assert!(matches!(&items[1], Arg::Short(c, false, _) if *c == y as char));
+        } else {
+            assert!(r.is_none() && items.len() == 1);
+            assert!(matches!(&items[0], Arg::Word(_)));
+        }
+    }
+    kani::cover!(fx && !ax && !fy && ay);
+    std::mem::forget(items);
+    std::mem::forget(flags);
+    std::mem::forget(args);
+    std::mem::forget(r);
+}
